@@ -56,6 +56,7 @@ def applyWrapper (e : Err) (s : String) : Option Err :=
   match s.splitOn "." with
   | ["W", a, b] => do let a ← unhex a; let b ← unhex b; pure (.wrap a b e)
   | ["E", j] => do let j ← unhex j; pure (.embed j e)
+  | ["ES", j] => do let j ← unhex j; pure (.embed j e)     -- the object is a Go string; j is its canonical JSON text
   | ["W2", a, b, c, side, m] => do
     let a ← unhex a; let b ← unhex b; let c ← unhex c; let m ← unhex m
     wrap2Side a b c e side m
